@@ -18,17 +18,35 @@
    C13_same_name, C13_prepare_iff_rename (now without the well-formedness hypothesis),
    C13_prepare_null_rename_null, C13_no_context, C13_prepare_range, C13_references_in_rename,
    C13_rename_edits, C13_global_position, C13_local_wins.
-   STATED, NOT PROVED, NOT REFUTED: C13_full_statement (references / rename / prepareRename read
-   formally over the syntactic occurrences and bindings of Spec/Nav.v).  Before b909979 it was
-   refuted on the model by the witnesses of the findings C13-local-named-like-its-procedure,
-   C13-type-use-shadowed-by-local, C13-rename-predefined-procedure and C13-local-named-int; on these
-   four witnesses it HOLDS now (C13_repaired_witnesses_agree) and no counterexample is known.
+   PROVED for every VALID program in every layout (the first half of the functional property):
+   C13_valid - for every abstract program p of the grammar whose mandated tree is well-typed
+   (Spec/Typing.v), every text that lexes to p's tokens, every identifier occurrence o of the tree
+   (Spec/Nav.v [occurrences]) and every cursor position inside its token: references = the other
+   occurrences bound to the same entity, rename = all of them (null for a predefined entity),
+   prepareRename = the identifier's own range (null for a predefined entity) - the answers are even
+   equal as lists, in the order of [occurrences]; C13_valid_text - the same for every rendering
+   (Proofs/RenderProofs.v) of such a program.  This is C13_full_statement with its hypothesis "document
+   without diagnostics" ([clean_doc]) replaced by "layout of a well-typed abstract program" (the
+   formulation of C03_no_false_positive, C14_hover_valid, C15, C17_valid).  Proof: Proofs/RefsValidWalks.v
+   (a walk under a name test = the occurrence list filtered), Proofs/RefsValidSem.v (on a well-typed tree
+   "bound to the same entity" = "same key": role class, name, enclosing procedure for locals),
+   Proofs/RefsValidKey.v (the walk the handler chooses collects exactly the occurrences with the key),
+   Proofs/RefsValidModel.v (the handlers on a token vector in text order), Proofs/RefsValid.v (grammar:
+   where the occurrences sit, distinct declarations have distinct tokens; assembly).
+   STATED, NOT PROVED, NOT REFUTED: C13_full_statement in its formulation over [clean_doc] - on top of
+   C13_valid it needs the completeness of the front end (no diagnostic => the text is a layout of a
+   well-typed abstract program), which is not proved.  Before b909979 it was refuted on the model by the
+   witnesses of the findings C13-local-named-like-its-procedure, C13-type-use-shadowed-by-local,
+   C13-rename-predefined-procedure and C13-local-named-int; on these four witnesses it HOLDS now
+   (C13_repaired_witnesses_agree) and no counterexample is known.
    STATED ONLY: C13_roundtrip_statement (apply the edits, same diagnostics, same bindings, rename
-   back).  Both are validated by the check (correspondence, derivation-based oracle, the judge
-   deciding the instances of C13_full_statement on generated programs - command 37 -, round-trip
-   oracle with an independent edit model on the real server), not proved. *)
+   back).  It is validated by the check (correspondence, derivation-based oracle, the judge deciding
+   the instances of C13_full_statement on generated programs - command 37 -, round-trip oracle with an
+   independent edit model on the real server), not proved. *)
 From Coq Require Import Permutation.
-From Spl Require Import Model.Goto Model.Refs Spec.Nav Proofs.GotoProofs Proofs.RefsProofs.
+From Spl Require Import Proofs.GrammarProofs Spec.Typing Proofs.TypingProofs Proofs.RenderProofs Proofs.PipelineText.
+From Spl Require Props.C14.
+From Spl Require Import Model.Goto Model.Refs Spec.Nav Proofs.GotoProofs Proofs.RefsProofs Proofs.RefsValid.
 Import ListNotations.
 Local Open Scope N_scope.
 
@@ -174,6 +192,94 @@ Example C13_full_statement_unfold :
         end
      /\ prepare_rename d l c = ROk (spec_prepare d o)).
 Proof. reflexivity. Qed.
+
+(* 9b. ... proved on VALID programs, in any layout.  p ranges over the abstract programs of the grammar
+       (Spec/Grammar.v), G over the global tables that the declarative static semantics (Spec/Typing.v
+       [well_typed]) accepts for the tree the grammar mandates, t over the texts that lex to p's token
+       kinds, i.e. over all layouts of p; o over the identifier occurrences of the tree and (l, c) over the
+       cursor positions inside o's token.  This is C13_full_statement with [clean_doc t d] replaced by
+       "t is a layout of a well-typed abstract program" (the formulation of C14_hover_valid and C17_valid);
+       what the former would need in addition is the completeness of the front end, which is not proved. *)
+Theorem C13_valid : forall (p : aprog) (G : gtable) (t : text) (toks : list token) (d : doc),
+  prog_ok p = true -> well_typed (expected p) G ->
+  lex t = Some toks -> map tk toks = flatten p ++ [Eof] ->
+  new_doc_res t = ODone d ->
+  forall o l c, In o (occurrences (d_ast d)) -> cursor_inside d o l c ->
+    (exists rs, references d l c = ROk (Some rs) /\ Permutation rs (spec_references d o))
+    /\ match spec_rename d o with
+       | Some es' => exists es, rename d l c = ROk (Some es) /\ Permutation es es'
+       | None => rename d l c = ROk None
+       end
+    /\ prepare_rename d l c = ROk (spec_prepare d o).
+Proof. exact refs_valid. Qed.
+Print Assumptions C13_valid.
+
+(* ... from text: every rendering of a valid abstract program (any white space gaps satisfying gaps_ok,
+   comments in any token gap; Proofs/RenderProofs.v, Proofs/PipelineText.v, explained in Props/C04.v)
+   is such a layout, and the analysis never fails on it *)
+Theorem C13_valid_text : forall (p : aprog) (G : gtable) gaps (t : text),
+  prog_ok p = true -> aprog_valid p = true -> gaps_ok (flatten p) gaps -> render_kinds (flatten p) gaps = Some t ->
+  well_typed (expected p) G ->
+  exists toks d, lex t = Some toks /\ map tk toks = flatten p ++ [Eof] /\ new_doc_res t = ODone d /\
+  forall o l c, In o (occurrences (d_ast d)) -> cursor_inside d o l c ->
+    (exists rs, references d l c = ROk (Some rs) /\ Permutation rs (spec_references d o))
+    /\ match spec_rename d o with
+       | Some es' => exists es, rename d l c = ROk (Some es) /\ Permutation es es'
+       | None => rename d l c = ROk None
+       end
+    /\ prepare_rename d l c = ROk (spec_prepare d o).
+Proof.
+  intros p G gaps t Hok Hv Hg Hr Hwt. destruct (text_layout_of p gaps t Hv Hg Hr) as [toks [Hl Hk]].
+  exists toks, {| d_text := t; d_toks := toks; d_ast := expected p; d_table := G |}.
+  assert (Hd : new_doc_res t = ODone {| d_text := t; d_toks := toks; d_ast := expected p; d_table := G |}).
+  { destruct (no_false_positive_tree _ _ (expected_clean p) Hwt) as [Hb [Ha _]].
+    unfold new_doc_res. now rewrite Hl, (roundtrip p toks Hok Hk), Hb, Ha. }
+  repeat split; try assumption; now apply (refs_valid p G t toks _ Hok Hwt Hl Hk Hd).
+Qed.
+Print Assumptions C13_valid_text.
+
+(* non-vacuity of C13_valid: the valid program of Props/C14.v (its well-typedness and layout are proved
+   there: C14_ex_well_typed, C14_ex_layout) -
+     type t = int;
+     // doc
+     proc k(a: t) { var k: t; var t: t; t := a; k := t; }
+     proc main() {}
+   the procedure k declares a variable k and a variable t named like the type of its parameter; 14
+   identifier occurrences.  The theorem applied to it ... *)
+Example C13_valid_ex :
+  match new_doc_res C14.c14_valid_text with
+  | ODone d =>
+      length (occurrences (d_ast d)) = 14%nat
+      /\ forall o l c, In o (occurrences (d_ast d)) -> cursor_inside d o l c ->
+           (exists rs, references d l c = ROk (Some rs) /\ Permutation rs (spec_references d o))
+           /\ match spec_rename d o with
+              | Some es' => exists es, rename d l c = ROk (Some es) /\ Permutation es es'
+              | None => rename d l c = ROk None
+              end
+           /\ prepare_rename d l c = ROk (spec_prepare d o)
+  | _ => False
+  end.
+Proof.
+  destruct C14.C14_ex_layout as [Hok Hl].
+  destruct (lex C14.c14_valid_text) as [toks|] eqn:El; [|contradiction].
+  destruct (new_doc_res C14.c14_valid_text) as [d|s|] eqn:Ed;
+    [|vm_compute in Ed; discriminate Ed|vm_compute in Ed; discriminate Ed].
+  split; [|exact (C13_valid C14.c14_p C14.c14_table C14.c14_valid_text toks d Hok C14.C14_ex_well_typed El Hl Ed)].
+  assert (Ed' : d = match new_doc_res C14.c14_valid_text with ODone x => x | _ => d end) by now rewrite Ed.
+  rewrite Ed'. vm_compute. reflexivity.
+Qed.
+
+(* ... and evaluated independently of the theorem, at the first and the last column of every occurrence
+   (as multisets); e.g. references on the variable t of `t := a` (2,35): its declaration and its use in
+   `k := t`, not the type t; rename on the type t behind `a:` (2,10): the type declaration and its three
+   uses; the type int (0,9) is predefined *)
+Example C13_valid_eval :
+  let d := doc_of C14.c14_valid_text in
+  forallb (refs_agree_at d) (occurrences (d_ast d)) = true
+  /\ references d 2 35 = ROk (Some [((2, 29), (2, 30)); ((2, 48), (2, 49))])
+  /\ rename d 2 10 = ROk (Some [((0, 5), (0, 6)); ((2, 10), (2, 11)); ((2, 22), (2, 23)); ((2, 32), (2, 33))])
+  /\ rename d 0 9 = ROk None /\ prepare_rename d 0 9 = ROk None.
+Proof. vm_compute. repeat split. Qed.
 
 (* 10. second half: applying a rename to a fresh name (edits applied with the text model of C08,
        Doc.apply_changes, last edit first).  Stated, not proved. *)
